@@ -693,6 +693,26 @@ func TestC12(t *testing.T) {
 	core.DFS(r, core.Check[tailCase]{Name: "tails-after-error", Gen: genTail, Exec: execTail}, 0)
 	core.Rapid(r, core.Check[blameCase]{Name: "blamed-token", Gen: genBlame, Exec: execBlame, HangLimit: 120 * time.Second}, r.N(3000, 30000))
 	core.Rapid(r, core.Check[reuseCase]{Name: "one-parser-many-documents", Gen: genReuse, Exec: execReuse, HangLimit: 120 * time.Second}, r.N(1500, 15000))
+	// Set literals whose items are kin (kinset_test.go), as they are and with one edit: ordering the items of a
+	// Set is the one step of parsing that runs the collator over what the document holds
+	core.Rapid(r, core.Check[mutCase]{Name: "sets-of-kin", Gen: func(s core.Source) mutCase {
+		base := genKin(s).doc().Text
+		c := mutCase{Base: base, Input: base}
+		if s.Choose(2, "edit") == 1 {
+			runes := []rune(base)
+			p := s.Choose(len(runes), "pos")
+			if s.Choose(2, "kind") == 0 {
+				runes = append(runes[:p:p], runes[p+1:]...)
+				c.Edits = []string{fmt.Sprintf("delete@%d", p)}
+			} else {
+				ch := hostile[s.Choose(len(hostile), "char")]
+				runes = append(runes[:p:p], append([]rune{ch}, runes[p+1:]...)...)
+				c.Edits = []string{fmt.Sprintf("substitute %q@%d", ch, p)}
+			}
+			c.Input = string(runes)
+		}
+		return c
+	}, Exec: execMutant, HangLimit: 120 * time.Second}, r.N(2000, 20000))
 	depths := []int{1, 2, 8, 9, 16, 17, 18, 50, 100, 300}
 	if r.Thorough() {
 		depths = append(depths, 1000, 2000)
